@@ -102,6 +102,20 @@ Theorem C15_strategies_bare_name : forall fs cwd f roots pre n post b,
 Proof. exact from_first_in_bare_name. Qed.
 Print Assumptions C15_strategies_bare_name.
 
+(* (3') the same for a target relative to the working directory - provided the walk of inference 3 finds nothing,
+   which is exactly what fails in the open finding F16 *)
+Theorem C15_strategies_bare_name_relative : forall fs cwd tc roots pre n post b,
+  tc = pre ++ n :: post ++ [b] ->
+  roots <> [] ->
+  exists_ fs (cwd ++ tc) = true ->
+  (forall r, In r roots -> covers cwd (cwd ++ tc) r = false) ->
+  strategy3 fs cwd (P false tc) roots = None ->
+  str_in n (bare_names roots) = true ->
+  (forall x, In x pre -> str_in x (bare_names roots) = false) ->
+  from_first_in fs cwd roots (P false tc) = mk_definition fs (cwd ++ tc) (cwd ++ pre ++ [n]).
+Proof. exact from_first_in_bare_name_relative. Qed.
+Print Assumptions C15_strategies_bare_name_relative.
+
 (* (4) a relative target that begins with the name of its root (relative to the directory that contains the root)
    and does not exist relative to the working directory; the root given as a path *)
 Theorem C15_strategies_name_relative : forall fs cwd a pre n rest roots,
